@@ -11,7 +11,7 @@ from jv.props import common as C
 
 ID = "C11"
 LEVEL = "fault_enumeration"
-BUDGET = {"quick": 1600, "thorough": 24000}
+BUDGET = {"quick": 2600, "thorough": 32000}
 RULE = (
     "two parts. (1) enumerated: for fixed small scenarios (quick: 1, thorough: 3) under the sequential schedule, EVERY "
     "scheduling point (lock operation, external command, file open/commit/remove/rename) of EVERY submitter "
